@@ -174,3 +174,64 @@ Fixpoint enumerate (rs : list nni) (t : utree) : option (list utree * utree) :=
   end.
 
 Definition rearrange (t : utree) : option (list utree * utree) := enumerate (nni_list t) t.
+
+(** ** the nni object with its [applied] flag *)
+(** Apply starts with `if n.applied { return }` and ends with `n.applied = true`; Undo starts
+    with `if !n.applied { return }` and ends with `n.applied = false`: a second Apply without
+    Undo, an Undo without Apply and a second Undo do nothing and return no error; after
+    Apply, Undo the object can be applied again. *)
+Inductive op : Type := OpApply | OpUndo.
+
+Definition step (r : nni) (o : op) (st : bool * utree) : option (bool * utree) :=
+  let '(applied, t) := st in
+  match o with
+  | OpApply => if applied then Some st
+               else match apply r t with Some t' => Some (true, t') | None => None end
+  | OpUndo => if applied
+              then match undo r t with Some t' => Some (false, t') | None => None end
+              else Some st
+  end.
+
+(** the tree after every operation, and the final state *)
+Fixpoint run_ops (r : nni) (ops : list op) (st : bool * utree) : option (list utree * (bool * utree)) :=
+  match ops with
+  | [] => Some ([], st)
+  | o :: ops' =>
+    match step r o st with
+    | None => None
+    | Some st1 =>
+      match run_ops r ops' st1 with
+      | Some (l, stf) => Some (snd st1 :: l, stf)
+      | None => None
+      end
+    end
+  end.
+
+(** every proposal object (fresh: not applied) goes through the same operations, on the same
+    tree object *)
+Fixpoint enumerate_ops (ops : list op) (rs : list nni) (t : utree) : option (list (list utree) * utree) :=
+  match rs with
+  | [] => Some ([], t)
+  | r :: rs' =>
+    match run_ops r ops (false, t) with
+    | None => None
+    | Some (l, (_, t2)) =>
+      match enumerate_ops ops rs' t2 with
+      | Some (ls, tf) => Some (l :: ls, tf)
+      | None => None
+      end
+    end
+  end.
+
+(** proposals kept by the caller and used after the enumeration, in the order [order]
+    (indexes into the enumeration, possibly repeated) *)
+Definition pick (t : utree) (order : list nat) : option (list nni) :=
+  let rs := nni_list t in
+  (fix go (l : list nat) : option (list nni) :=
+     match l with
+     | [] => Some []
+     | i :: l' => match nth_error rs i, go l' with
+                  | Some r, Some rl => Some (r :: rl)
+                  | _, _ => None
+                  end
+     end) order.
